@@ -10,6 +10,7 @@ import (
 	"reflect"
 	"runtime"
 	rsync "sync"
+	"time"
 )
 
 // Re-exported real types that overlaid files may reference through the `sync` name.
@@ -581,6 +582,11 @@ type Explorer struct {
 	Schedules int
 	Capped    bool
 	MaxPoints int
+	// Stop: set by Check to end the exploration (an execution that deadlocks or runs past the horizon leaves
+	// its goroutines parked for good; the first such counterexample is enough, more of them only leak memory)
+	Stop bool
+	// Deadline: exploration stops with Capped once it has passed (zero: none)
+	Deadline time.Time
 }
 
 // optionCost: deviations charged for flattened choice c at point p.
@@ -606,7 +612,10 @@ func (e *Explorer) Explore() {
 }
 
 func (e *Explorer) explore(prefix []int) {
-	if e.MaxExec > 0 && e.Schedules >= e.MaxExec {
+	if e.Stop {
+		return
+	}
+	if (e.MaxExec > 0 && e.Schedules >= e.MaxExec) || (!e.Deadline.IsZero() && time.Now().After(e.Deadline)) {
 		e.Capped = true
 		return
 	}
@@ -634,7 +643,7 @@ func (e *Explorer) explore(prefix []int) {
 			}
 			np := append(append([]int{}, s.Choices[:i]...), alt)
 			e.explore(np)
-			if e.Capped {
+			if e.Capped || e.Stop {
 				return
 			}
 		}
